@@ -469,7 +469,8 @@ class Interp:
                             if new != old:
                                 self.eng.FIELD[(k, target.attr)] = new
                                 self.eng.touch()
-                # attribute store on an object the caller owns mutates that object
+                # attribute store on an object the caller owns mutates that object (also when it goes
+                # through a property setter of a repo class)
                 self.sink(bav, node, f"attribute store {norm(target)}", only_ext_objects=True,
                           kind="attrstore")
         elif isinstance(target, ast.Subscript):
@@ -981,6 +982,13 @@ class Interp:
         if name in ("nan_to_num",) and args and any(
                 k.arg == "copy" and isinstance(k.value, ast.Constant) and k.value.value is False for k in e.keywords):
             self.sink(args[0], e, "np.nan_to_num(copy=False) rewrites its argument", kind="libmut")
+        for k in e.keywords:
+            # scipy.linalg style: overwrite_a=True / overwrite_b=True let the routine destroy its input
+            if k.arg and k.arg.startswith("overwrite_") and not (isinstance(k.value, ast.Constant) and not k.value.value):
+                which = k.arg[len("overwrite_"):]
+                pos = {"a": 0, "b": 1, "ab": 0, "x": 0, "input": 0, "data": 0}.get(which, 0)
+                if pos < len(args):
+                    self.sink(args[pos], e, f"{norm(fn)}({k.arg}=True) may destroy its argument", kind="libmut")
         if name == "at" and args:  # ufunc.at(a, idx, b)
             self.sink(args[0], e, "ufunc.at destination", kind="libmut")
         if name in VIEW_FUNCS:
